@@ -425,6 +425,12 @@ async fn write_provision_state(
         );
     }
 
+    // status.tag.tmp is one shared name: let only one writer at a time go from writing it to renaming it
+    // (no await point below, so the guard is never held across a suspension)
+    static STATUS_TAG_WRITE_LOCK: std::sync::Mutex<()> = std::sync::Mutex::new(());
+    let _status_tag_write_guard = STATUS_TAG_WRITE_LOCK
+        .lock()
+        .unwrap_or_else(|poisoned| poisoned.into_inner());
     let status_file: PathBuf = provision_dir.join(STATUS_TAG_TMP_FILE_NAME);
     match std::fs::write(status_file, failed_state_message.as_bytes()) {
         Ok(_) => {
